@@ -40,7 +40,8 @@ Fails(e) ==
   \o F("encoder-quoted-differs", e.enc = "quoted" => e.redec \in {"same", "folded-same"})
   \o F("lexer-token-classified-differently", e.lexdiff = <<>>)        \* the token the lexer yields for this text vs Token(text, grammar, decoder)
   \o F("lexer-splits-a-value", ~e.lexsplit \/ ref \in {"nav", "unspec"})      \* what the reference takes for a value must reach the parser as one token
-  \o F("number-or-date-loaded-as-name", num => ~e.nameok)             \* `<text> = 1` accepted by the dialect's loader with <text> as the name
+  \o F("number-or-date-loaded-as-name", num => ~e.nameok)
+  \o F("number-or-date-written-as-name", num => ~e.encname)            \* by the dialect's encoder, built with defaults or with only its grammar             \* `<text> = 1` accepted by the dialect's loader with <text> as the name
   \o F("ref-class", ref = "unspec" \/ ref = CodeClass(e))
 Verdict == PrintT(ToJson([i |-> i, fails |-> Fails(E), ref |-> Classify(E.d, E.s).c]))
 =============================================================================
